@@ -7,6 +7,7 @@ import (
 	"flag"
 	"fmt"
 	"os"
+	"time"
 
 	"verif/harness/morassd"
 	"verif/harness/vt"
@@ -22,7 +23,9 @@ func main() {
 	out := fs.String("out", "", "output trace (ndjson)")
 	in := fs.String("in", "", "input behaviours (ndjson)")
 	n := fs.Int("n", 100, "number of random cases")
+	conc := fs.Bool("conc", false, "force concurrent mode")
 	big := fs.Bool("big", false, "include large sizes")
+	tmo := fs.Int("timeout-ms", 10000, "arrival timeout for gated replays")
 	kd := fs.Int("kd", 8, "key divisor used by the model that emitted -in")
 	fs.Parse(os.Args[3:])
 	_ = in
@@ -35,9 +38,19 @@ func main() {
 		fmt.Printf("replayed=%d events=%d\n", k, w.N)
 	case "morass/random":
 		w := vt.Create(*out)
-		morassd.Random(w, vt.Rand(*seed, "morass"), *n, *big)
+		morassd.Random(w, vt.Rand(*seed, "morass"), *n, *big, *conc)
 		w.Close()
 		fmt.Printf("cases=%d events=%d\n", *n, w.N)
+	case "morass/conctrace":
+		w := vt.Create(*out)
+		morassd.ConcTraces(w, vt.Rand(*seed, "morassconc"), *n)
+		w.Close()
+		fmt.Printf("runs=%d events=%d\n", *n, w.N)
+	case "morass/sched":
+		w := vt.Create(*out)
+		k, bad := morassd.ReplaySchedules(w, *in, time.Duration(*tmo)*time.Millisecond)
+		w.Close()
+		fmt.Printf("schedules=%d mismatched=%d\n", k, bad)
 	default:
 		vt.Fatal("unknown command %s %s", sub, mode)
 	}
